@@ -53,7 +53,9 @@ class Case:
 
 # ---------------------------------------------------------------------------------- building cases
 
-def template_cases(rng, n_layouts):
+def template_cases(rng, n_layouts, extra_fraction=1.0):
+    """layout 0 (deterministic) for every case; each further seeded layout for a seeded
+    fraction of the cases (all of them when extra_fraction = 1)"""
     bases = []
     cases = []
     for tname in sorted(G.TEMPLATES):
@@ -64,6 +66,8 @@ def template_cases(rng, n_layouts):
         for lay in range(n_layouts):
             lr = None if lay == 0 else random.Random(rng.fork("%s/layout%d" % (tname, lay)).next())
             for rule, variant, site, k, sn in G.semantic_cases(tname):
+                if lr is not None and lr.random() >= extra_fraction:
+                    continue
                 toks, er = G.fill(tmpl, k, sn)
                 src, pos = G.render(toks, lr)
                 cases.append(Case(tname, rule, variant, site, toks, src, pos, ("semantic",), er))
@@ -71,6 +75,8 @@ def template_cases(rng, n_layouts):
             for rule, variant, site, ed, exp in G.syntax_cases(btoks):
                 n = ordn.get((rule, variant, site), 0)
                 ordn[(rule, variant, site)] = n + 1
+                if lr is not None and lr.random() >= extra_fraction:
+                    continue
                 src, pos = G.render(ed, lr)
                 cases.append(Case(tname, rule, variant, "%s#%d" % (site, n), ed, src, pos, exp))
     return bases, cases
@@ -493,7 +499,7 @@ def run(ctx):
     lap("extract_and_leaf_correspondence")
     # ---- site enumeration
     rng = ctx.rng.fork("sites")
-    tb, tcases = template_cases(rng, ctx.scale(2, 6))
+    tb, tcases = template_cases(rng, ctx.scale(2, 6), ctx.scale(0.3, 1.0))
     cb, ccases = corpus_cases(ctx, tools, ctx.scale(40, 400), ctx.scale(2, 6))
     lap("generate_cases")
     bases = run_cases(ctx, tools, exe, tb + cb, want_text=True)
